@@ -473,6 +473,12 @@ class Item:
     def validate(self, path, call_real, concretize_inputs, cmp=None):
         """path validation: one model of the path condition is pushed through the real, unpatched code and must
         produce the outcome the encoding predicts."""
+        from . import fp as _fp
+        if _fp.mentions_uf(path.pc[len(self.assumptions):] if len(path.pc) >= len(self.assumptions) else path.pc):
+            # the path condition depends on an uninterpreted (libm / aero) result: a model's interpretation of that
+            # function is arbitrary, so no concrete twin exists to compare with
+            self.uf_paths = getattr(self, "uf_paths", 0) + 1
+            return None
         rb = self.robust(path)
         if rb is not None:
             r, m, _ = self._solve(path.pc + list(self.assumptions) + rb, timeout_ms=60000)
@@ -571,10 +577,15 @@ class Item:
         if replay is None:
             raise HarnessError("%s/%s: counterexample without a replay procedure: %r"
                                % (self.name, label, self.model_inputs(model)))
-        reproduced, inputs, detail = replay(model)
+        rr = replay(model)
+        reproduced, inputs, detail = rr[:3]
+        real = rr[3] if len(rr) > 3 else None
         if not reproduced:
             raise HarnessError("%s/%s: counterexample does not reproduce on the real code (encoding or oracle "
                                "problem): inputs=%r detail=%s" % (self.name, label, jsonable(inputs), detail))
+        if finding is not None and finding.get("exc") is not None and real is not None and \
+                not (real[0] == "exc" and real[1] in finding["exc"]):
+            finding = None      # a different failure inside a known region is a new violation
         if finding is not None:
             self.known_hits.setdefault(finding["id"], {"what": finding["what"], "example": jsonable(inputs),
                                                        "detail": detail})
@@ -642,7 +653,7 @@ def decide(item, label, fn_sym, call_real, conc_inputs, post, maxpaths=20000, cm
             c2 = _call_post(post, real[0], real[1], PostCtx(conc, _p, model))
             if z3.is_expr(c2):
                 c2 = z3.is_true(ev_term(model, c2))
-            return (not c2), conc, "real outcome %r violates the property" % (jsonable(real[:2]),)
+            return (not c2), conc, "real outcome %r violates the property" % (jsonable(real[:2]),), real
         item.prove(label, p.pc, claim, replay, path=p)
     return paths
 
